@@ -16,21 +16,21 @@ pub static INVERSION_CENTERS: [InversionCentre; 4] = [
         c2: -11.93509,
     },
     InversionCentre {
-        name: "As_3",
+        name: "As3",
         k: 1.15963,
         c0: 10.57534,
         c1: -2.12537,
         c2: -10.52168,
     },
     InversionCentre {
-        name: "Sb_3",
+        name: "Sb3",
         k: 1.10944,
         c0: 10.67772,
         c1: -1.49926,
         c2: -10.65134,
     },
     InversionCentre {
-        name: "Bi_3",
+        name: "Bi3",
         k: 1.00937,
         c0: 11.10497,
         c1: -0.41220,
